@@ -9,7 +9,9 @@ check("C17", "model_checking",
       "Trusted: TLC, the rule RHeader in spec/Header.tla (from the property statement and docs/features.md 'Imports'), the "
       "renderer and the XML projection (their composition is checked on every case). Bounds: quick 5 declarations x 9 "
       "shapes (all pub/private interleavings of every kind) + 2 declarations x 61 shapes; thorough adds 7 x 5 shapes and "
-      "3 x 30 shapes; random modules <= 40 declarations with bodies <= 120 statements.",
+      "3 x 30 shapes; random modules <= 40 declarations with bodies <= 120 statements; family xmod: 0 / 1 / 1000 declarations, pub/private "
+      "alternating 500 times, private zones at the start / end / everywhere, bodies of 4000-5000 statements (skip counters > 2^16), headers of "
+      "88 704 nodes, every pub x extern x opaque combination on every kind, literals that need escaping in the dump.",
       "TLA+ spec (Header.tla) + TLC exhaustive enumeration, replay of every case on the real front end (projection + "
       "metamorphic comparison), TLC trace validation of hook events",
       "DESIGN.md section 5 C17")
